@@ -7,6 +7,7 @@ CONSTANTS
   MaxDamage = 1
   DamageKinds = {"type", "crc", "len"}
   PayZero = {FALSE}
+  EndOnBadHeader = FALSE
   ClearBehind = FALSE
 INIT Init
 NEXT Next
